@@ -944,3 +944,30 @@ Lemma dummy_code_def : forall dt,
                   | _ => (-8888)%Z
                   end.
 Proof. reflexivity. Qed.
+
+(* ------------------------------------------------------------------ 13. unsigned integer sensors (finding C19-F4) *)
+Lemma lacks_some_ext ps ps' name : map p_sens ps = map p_sens ps' -> lacks_some ps name = lacks_some ps' name.
+Proof.
+  intro A. unfold lacks_some.
+  assert (X : map (fun p => find_sens name (p_sens p)) ps = map (fun p => find_sens name (p_sens p)) ps').
+  { rewrite <- (map_map p_sens (find_sens name)), A, map_map. reflexivity. }
+  rewrite X. reflexivity.
+Qed.
+
+(* ConcatenatedSensorCache.get = concatenation with dummy fill, EXCEPT for a sensor of an unsigned integer type that
+   some part lacks (guard spelled out) *)
+Theorem unsigned_sensor_partial : forall input ps m name ar uns,
+  sort_parts input = Some ps -> Forall part_ok ps -> concat_open input = COk m -> Forall (sens_ok name) ps ->
+  uns = false \/ lacks_some ps name = false ->
+  match get_sensor_u (m_parts m) name ar uns with
+  | RNum l => spec_sensor ps name = Some l
+  | RCat c => spec_sensor ps name = Some (zexpand c) /\ cd_ok (list_sum (map nT ps)) c
+  | RKeyError => spec_sensor ps name = None
+  | RFail => mixed_kinds name ps = true
+  end.
+Proof.
+  intros input ps m name ar uns E OK H SO G. pose proof (concat_open_facts input ps m E OK H) as O.
+  unfold get_sensor_u. rewrite (lacks_some_ext (m_parts m) ps name (op_sens _ _ O)).
+  assert (X : uns && lacks_some ps name = false) by (destruct G as [-> | ->]; [reflexivity | apply andb_false_r]).
+  rewrite X. exact (sensor_expand_open input ps m name ar E OK H SO).
+Qed.
